@@ -174,7 +174,7 @@ func (adapter *Adapter) UpdateInputs(deps []controller.Input) error {
 				return fmt.Errorf("error deleting controller dependency: %w", err)
 			}
 
-			adapter.deleteWatchFilter(dbDeps[j].Namespace, dbDeps[j].Type)
+			adapter.deleteWatchFilter(dbDeps[j].Namespace, dbDeps[j].Type, dbDeps[j].ID)
 
 			j++
 		}
@@ -185,7 +185,9 @@ func (adapter *Adapter) UpdateInputs(deps []controller.Input) error {
 			}
 
 			if deps[i].Kind == controller.InputDestroyReady {
-				adapter.addWatchFilter(deps[i].Namespace, deps[i].Type, reduced.FilterDestroyReady)
+				adapter.addWatchFilter(deps[i].Namespace, deps[i].Type, deps[i].ID, reduced.FilterDestroyReady)
+			} else {
+				adapter.addWatchFilter(deps[i].Namespace, deps[i].Type, deps[i].ID, nil)
 			}
 
 			if err := adapter.watchFunc(deps[i].Namespace, deps[i].Type); err != nil {
